@@ -113,6 +113,8 @@ pub struct RunOpts {
     pub monitor: bool,
     /// items are stateless single frames: no Reset is inserted between items
     pub stateless: bool,
+    /// worker (driver process) count override
+    pub workers: Option<usize>,
 }
 
 impl RunOpts {
@@ -122,7 +124,12 @@ impl RunOpts {
             chunk: 512,
             monitor: true,
             stateless: true,
+            workers: None,
         }
+    }
+    pub fn workers(mut self, n: usize) -> RunOpts {
+        self.workers = Some(n);
+        self
     }
     pub fn stateful(mut self) -> RunOpts {
         self.stateless = false;
@@ -151,7 +158,7 @@ where
     let next = AtomicU64::new(0);
     let abort = AtomicBool::new(false);
     let merged = Mutex::new(Sink::new());
-    let nw = nworkers().min(((total + opts.chunk - 1) / opts.chunk).max(1) as usize);
+    let nw = opts.workers.unwrap_or_else(nworkers).min(((total + opts.chunk - 1) / opts.chunk).max(1) as usize);
     std::thread::scope(|s| {
         for _ in 0..nw {
             s.spawn(|| {
@@ -389,7 +396,7 @@ pub fn panic_site(text: &str) -> String {
         Some(p) => {
             let loc = &text[p + 3..];
             // registry paths: keep crate-relative tail
-            match loc.find("/src/") {
+            match loc.rfind("/src/") {
                 Some(q) if loc.contains(".cargo") => {
                     let head = &loc[..q];
                     let krate = head.rsplit('/').next().unwrap_or("");
@@ -488,6 +495,7 @@ pub fn map_cmds(cfg: &Cfg, cmds: &[Cmd], stage: &str, monitor: bool, sink: &mut 
         chunk: 1,
         monitor,
         stateless: true,
+        workers: None,
     };
     let model_holder = Model::new();
     let _ = &model_holder;
